@@ -615,7 +615,8 @@ static void gen_C18(const std::string &tier, uint64_t seed, long idx, Scn &s) {
   s.i["ptype"] = g.chance(0.5) ? 2 : 0;                 // equal plaintext chunks half of the time
   if (is_prod()) { s.i["ptype"] = 2; s.i["sio"] = 0; s.i["inb"] = -1; s.i["outb"] = -1; }
   Bytes sd2 = s.b["seedstr"];
-  sd2.push_back((uint8_t)(1 + g.below(255)));
+  if (sd2.size() < 200) sd2.push_back((uint8_t)(1 + g.below(255)));
+  else sd2[7] = (uint8_t)(sd2[7] == 1 ? 2 : sd2[7] - 1);      // seeds are capped at 255 bytes: change one instead of appending
   s.b["seedstr2"] = sd2;
   pick_sched(g, s, 0, T, false);
   if (is_prod()) { s.i["st0"] = simsched::ST_STICKY; s.i["sp0"] = 9999; }
